@@ -3,9 +3,12 @@
    result of each loader is compared with an incremental construction by the implementation (same constraint set; same edge set
    when the (constrained) Delaunay triangulation is unique) and must satisfy all state invariants (Props/C01-C04).  Proved here:
    the list-level decisions used for "exactly one vertex per distinct position" and "order-preserving subsequence" are exactly
-   their declarative statements. *)
+   their declarative statements; the verdict `bulk_equiv` (one vertex per distinct input position, every vertex carries the payload of
+   an input element at its position) and the verdict `bulk_edges` (same constraint edges as the incremental construction, same edges
+   when unique) are their declarative statements (Obs/RemoveProp.v, Obs/RemoveProofs.v). *)
 From Coq Require Import ZArith List Bool Arith.
-From SpadeV Require Import Num.Decode Vmap.Model Check.Run Cdt.SegSpecProofs.
+From SpadeV Require Import Num.Decode Geom.Pred Obs.State Obs.Spec Vmap.Model Check.Codes Check.Run Cdt.SegSpecProofs Obs.RemoveProp Obs.RemoveProofs.
+Import ListNotations.
 
 Theorem C10_stable_order_is_subsequence : forall a b, is_subseq a b = true <-> Subseq a b.
 Proof. exact is_subseq_spec. Qed.
@@ -14,6 +17,36 @@ Proof. exact nodup_keys_spec. Qed.
 Theorem C10_same_position_set : forall a b, same_key_set a b = true <-> (forall k, In k a <-> In k b).
 Proof. exact same_key_set_spec. Qed.
 
+(* the verdict `bulk_equiv` *)
+Theorem C10_bulk_equiv_verdict : forall kof ts ks vn, bulk_equiv_verdict kof ts ks vn = true <-> BulkEquivOk kof ts ks vn.
+Proof. exact bulk_equiv_verdict_spec. Qed.
+
+(* the verdict `bulk_edges`: comparison with the incremental construction *)
+Theorem C10_edge_sets_equal : forall a b, pairs_same a b = true <-> SameUPairs a b.
+Proof. exact pairs_same_sets. Qed.
+Theorem C10_reference_verdict : forall n pts res rcs, ref_verdict n pts res rcs = true <-> RefOk n pts res rcs.
+Proof. exact ref_verdict_spec. Qed.
+
+(* check_bulk / check_ref of Check/Run.v report these verdicts.  (Their statements mention key_of / obs_points, i.e. the binary64
+   decoding through Flocq, hence the four Flocq/Reals axioms in their assumptions.) *)
+Theorem C10_check_bulk_reports_bulk_equiv : forall p n stable cnt rest r0 rt ks vn,
+  let ts := triples (firstn (3 * Z.to_nat cnt) rest) in
+  (r0 =? K_err)%Z = false -> keys_of_triples ts = Some ks -> vstate_of (o_verts n) = Some vn ->
+  check_bulk p n stable (cnt :: rest) (r0 :: rt) =
+  (T_validate, (fst (first_invalid ts) =? K_ok)%Z)
+  :: (T_bulk_equiv, bulk_equiv_verdict key_of ts ks vn)
+  :: (if stable then [(T_bulk_stable, is_subseq (map fst vn) ks)] else []).
+Proof. exact check_bulk_unfold. Qed.
+Theorem C10_check_ref_is_ref_verdict : forall t n a res rcs pts,
+  parse_ref a = Some (res, rcs) -> obs_points n = Some pts ->
+  check_ref t n (Some a) = [(t, ref_verdict n pts res rcs)].
+Proof. exact check_ref_unfold. Qed.
+
 Print Assumptions C10_stable_order_is_subsequence.
 Print Assumptions C10_one_vertex_per_position.
 Print Assumptions C10_same_position_set.
+Print Assumptions C10_bulk_equiv_verdict.
+Print Assumptions C10_edge_sets_equal.
+Print Assumptions C10_reference_verdict.
+Print Assumptions C10_check_bulk_reports_bulk_equiv.
+Print Assumptions C10_check_ref_is_ref_verdict.
